@@ -28,6 +28,7 @@ from fractions import Fraction as F
 
 sys.path.insert(0, os.path.dirname(os.path.abspath(__file__)))
 from lib import Check, REPO, guarded, reslit, zlit, blit, listlit   # noqa: E402
+import gen_pair   # noqa: E402  (tools/: translator tie for is_sub_list / do_bounds_overlap)
 
 logging.disable(logging.CRITICAL)
 import warnings                                                      # noqa: E402
@@ -579,6 +580,8 @@ def impl_hit(a, b):
 def main():
     ck = Check('C02')
     ck.build_theories(['theories/Props/C02.vo', 'theories/Corr/PairK.vo'])
+    rep = gen_pair.main(REPO, os.path.join(ck.rundir, 'PairGen.v'))   # is_sub_list / do_bounds_overlap regenerated from the source ...
+    ck.gen('PairGen.v', rep, 'PairGenEq.v')                           # ... proved equal to PairM.is_sub_list / GeomM.bounds_overlap for all arguments
     ck.props('Props/C02.v')
     rng = ck.rng
     quick = ck.tier == 'quick'
